@@ -257,6 +257,7 @@ def dictEq (m₁ m₂ : Items) : Bool :=
 def dictHash (kind : DictHashKind) (tupleHash : List Nat → Nat) (itemHash : Nat × Nat → Nat)
     (m : Items) : Option Nat :=
   match kind with
+  | .sortedItems => some (tupleHash ((m.mergeSort itemLe).map itemHash))
   | .sortedItemsTypeAndValue => some (tupleHash ((m.mergeSort itemLe).map itemHash))
   | .unknown => Option.none
 
